@@ -13,7 +13,7 @@ from ..vlib.report import MachineryError, Report
 
 util.ensure_repo_importable()
 from strengths import (RDGridSpace, RDGraphSpace, RDGraphSpaceEdge, RDGraphSpaceNode, RDNetwork, RDSystem, Species, UnitValue,
-                       UnitsSystem)  # noqa: E402
+                       UnitArray, UnitsSystem)  # noqa: E402
 
 PROP = "C13"
 
@@ -243,6 +243,8 @@ def run(tier, selftest=False, only=None):
         tag = {"case": describe(impl)}
         with rep.guard("layout", tag):
             _case(rep, spec, impl, exp, tag)
+    with rep.guard("position-forms", None):
+        large_grid_positions(rep, rng)
     rep.traces = len(cases)
     rep.sample({"spec_case": cases[0][0], "expected_default_state": [float(UO.mono(m)) for m in out[0]["state"]]})
     if selftest:
@@ -253,6 +255,50 @@ def run(tier, selftest=False, only=None):
         rep.selftest("a permuted expected array differs from the implementation's",
                      perm == want or not all(close(a, b) for a, b in zip(si_state(system), perm)))
     return rep.finish()
+
+
+def position_forms(x, y, z, w, h):
+    """every accepted way of naming the cell (x, y, z) of a grid w x h x ..: the linear index z*w*h + y*w + x as a Python or
+    numpy integer, and the coordinates as tuple / list / array of Python ints, of numpy integers of any width, or as an object"""
+    import numpy as np
+    lin = z * w * h + y * w + x
+    return {"index": lin, "index-np.int64": np.int64(lin), "index-np.int32": np.int32(lin),
+            "tuple": (x, y, z), "list": [x, y, z], "array-int64": np.array([x, y, z], dtype=np.int64),
+            "array-int32": np.array([x, y, z], dtype=np.int32), "array-int16": np.array([x, y, z], dtype=np.int16),
+            "array-uint8": np.array([x, y, z], dtype=np.uint8), "array-int8": np.array([x, y, z], dtype=np.int8),
+            "tuple-of-np.uint8": (np.uint8(x), np.uint8(y), np.uint8(z)), "object": P(x, y, z),
+            "object-np.uint8": P(np.uint8(x), np.uint8(y), np.uint8(z))}
+
+
+def large_grid_positions(rep, rng):
+    """On a grid with more cells than a narrow integer type can count, every form of a position names the same entry
+    (layout index = species x ncells + z*w*h + y*w + x) for the getters and the setters."""
+    w, h, d = 8, 8, 5
+    n = w * h * d
+    net = RDNetwork(species=[Species("A", density=1.0), Species("B", density=2.0)], reactions=[])
+    base = [float(k) for k in range(2 * n)]
+    for _ in range(12):
+        x, y, z = rng.randrange(w), rng.randrange(h), rng.randrange(d)
+        s = rng.randrange(2)
+        want = s * n + z * w * h + y * w + x
+        for form, pos in position_forms(x, y, z, w, h).items():
+            system = RDSystem(network=net, space=RDGridSpace(w=w, h=h, d=d), state=UnitArray(list(base), "molecule"))
+            rep.case(["position-form", form, x, y, z, s])
+            tag = {"grid": [w, h, d], "cell": [x, y, z], "species": s, "form": form, "expected_index": want}
+            try:
+                got = float(system.get_state("AB"[s], pos).convert("molecule").value)
+                idx = int(system.get_state_index("AB"[s], pos))
+                system.set_state("AB"[s], pos, -7.0)
+                system.set_chemostat("AB"[s], pos, True)
+                after = [float(v) for v in system.state.convert("molecule").value]
+                chem = [int(v) for v in system.chemostats]
+            except Exception as e:  # noqa
+                rep.violation("position-forms", "layout:position-form-exception:" + form.split("-")[0], dict(tag, exc=repr(e)[:200]))
+                continue
+            changed = [k for k in range(2 * n) if after[k] != base[k]]
+            if got != base[want] or idx != want or changed != [want] or [k for k in range(2 * n) if chem[k]] != [want]:
+                rep.violation("position-forms", "layout:position-form-addresses-another-entry:" + form.split("-")[0],
+                              dict(tag, read=got, index=idx, written=changed[:5], flagged=[k for k in range(2 * n) if chem[k]][:5]))
 
 
 def _case(rep, spec, impl, exp, tag):
